@@ -246,3 +246,190 @@ def _plain(x):
     if isinstance(x, (bool, int, float, str, type(None))):
         return x
     return str(x)
+
+
+# -- ranking-function laws for arbitrary rankings (C18) ---------------------------------------
+class RankLawHarness(_Base):
+    """CustomPreOCF over symbolic ranks (one integer per world, 0..RMAX) and symbolic formulas."""
+
+    RMAX = 3
+
+    def __init__(self, N, mode, drop=None, label=None):
+        ops.setup()
+        from .symint import SymInt
+        self.N, self.M, self.mode = N, 0, mode
+        tt.set_universe(N)
+        W = CTX.W
+        self.R = [Z.Int("R%d" % w) for w in range(W)]
+        self.FA = Z.BitVec("FA", W)
+        self.FB = Z.BitVec("FB", W)
+        self.vars = self.R + [self.FA, self.FB]
+        self.drop = drop or []
+        self.label = label or "CustomPreOCF[%s] N=%d%s" % (mode, N, (" drop=%s" % self.drop) if self.drop else "")
+        self.reset()
+
+    def mk_engine(self):
+        tt.set_universe(self.N)
+        pre = [Z.And(r >= 0, r <= self.RMAX) for r in self.R]
+        return symex.Engine(assumptions=pre, max_decisions=6000)
+
+    def run(self, eng):
+        from .symint import SymInt
+        import inference.preocf as po
+        R = ops.R
+        ranks = {world_str(w, self.N): SymInt(self.R[w], 0, self.RMAX) for w in range(CTX.W)}
+        try:
+            ocf = po.PreOCF.init_custom(ranks, signature=list(CTX.atom_names))
+            fa, fb = tt.Leaf("FA", self.FA), tt.Leaf("FB", self.FB)
+            if self.mode == "formula_rank":
+                return ("ok", _conc(ocf.formula_rank(fa)))
+            if self.mode == "acceptance":
+                return ("ok", bool(ocf.conditional_acceptance(R["Conditional"](fb, fa, "q"))))
+            if self.mode == "marginalize":
+                m = ocf.marginalize([CTX.atom_names[i] for i in self.drop])
+                mr = {k: _conc(v) for k, v in m.ranks.items()}
+                return ("ok", list(m.signature), mr)
+            if self.mode == "conditionalize":
+                d = ocf.compute_conditionalization(fa)
+                return ("ok", {k: _conc(v) for k, v in d.items()}, list(ocf.filter_worlds_by_conditionalization(fa)))
+            if self.mode == "tpo":
+                tpo = po.ranks2tpo(dict(ranks))
+                layers = [sorted(l) for l in tpo]
+                back_idx = po.tpo2ranks(tpo, lambda k: k)
+                return ("ok", layers, dict(back_idx))
+            raise ValueError(self.mode)
+        except Exception as e:  # noqa: BLE001
+            if isinstance(e, symex.Inconclusive):
+                raise
+            return ("exc", type(e).__name__, str(e)[:200])
+
+    def minrank(self, tab):
+        """(nonempty, min) over the worlds of table `tab` (z3 terms)."""
+        r = Z.IntVal(self.RMAX + 1)
+        for w in range(CTX.W):
+            r = Z.If(Z.And(zb(tt.t_bit(tab, w)), self.R[w] < r), self.R[w], r)
+        return bv(tab) != bv(0), r
+
+    def good(self, res):
+        if res[0] != "ok":
+            return Z.BoolVal(False)
+        FA, FB, Rk = self.FA, self.FB, self.R
+        if self.mode == "formula_rank":
+            ne, mn = self.minrank(FA)
+            if res[1] is None:
+                return Z.Not(ne)
+            return Z.And(ne, mn == res[1])
+        if self.mode == "acceptance":
+            nev, mv = self.minrank(FA & FB)
+            nef, mf = self.minrank(FA & ~FB)
+            spec = Z.And(nev, Z.Or(Z.Not(nef), mv < mf))
+            return spec == Z.BoolVal(res[1])
+        if self.mode == "marginalize":
+            keep = [i for i in range(self.N) if i not in self.drop]
+            if res[1] != [CTX.atom_names[i] for i in keep]:
+                return Z.BoolVal(False)
+            cs = []
+            exp_worlds = set()
+            for nw in range(2 ** len(keep)):
+                ns = "".join("1" if (nw >> j) & 1 else "0" for j in range(len(keep)))
+                exp_worlds.add(ns)
+                ext = [w for w in range(CTX.W) if all(((w >> i) & 1) == ((nw >> j) & 1) for j, i in enumerate(keep))]
+                if ns not in res[2] or res[2][ns] is None:
+                    return Z.BoolVal(False)
+                mn = Rk[ext[0]]
+                for w in ext[1:]:
+                    mn = Z.If(Rk[w] < mn, Rk[w], mn)
+                cs.append(mn == res[2][ns])
+            if set(res[2]) != exp_worlds:
+                return Z.BoolVal(False)
+            return Z.And(*cs)
+        if self.mode == "conditionalize":
+            d, lst = res[1], res[2]
+            if sorted(lst) != sorted(d) or len(set(lst)) != len(lst):
+                return Z.BoolVal(False)
+            cs = []
+            for w in range(CTX.W):
+                ws = world_str(w, self.N)
+                inn = zb(tt.t_bit(FA, w))
+                if ws in d:
+                    if d[ws] is None:
+                        return Z.BoolVal(False)
+                    cs.append(Z.And(inn, Rk[w] == d[ws]))
+                else:
+                    cs.append(Z.Not(inn))
+            return Z.And(*cs)
+        if self.mode == "tpo":
+            layers, back = res[1], res[2]
+            flat = [w for l in layers for w in l]
+            if sorted(flat) != sorted(world_str(w, self.N) for w in range(CTX.W)) or any(not l for l in layers):
+                return Z.BoolVal(False)
+            cs = []
+            pos = {}
+            for k, l in enumerate(layers):
+                for ws in l:
+                    pos[world_int(ws)] = k
+            for a in range(CTX.W):
+                for b in range(CTX.W):
+                    cs.append((Rk[a] < Rk[b]) == Z.BoolVal(pos[a] < pos[b]))     # order preserved, ties = same layer
+            for ws, k in back.items():
+                if pos[world_int(ws)] != k:
+                    return Z.BoolVal(False)
+            return Z.And(*cs)
+        raise ValueError(self.mode)
+
+    def on_path(self, eng, res):
+        self.counts[res[0]] = self.counts.get(res[0], 0) + 1
+        bad = Z.Not(self.good(res))
+        if eng.vc(bad) is not None:
+            self.record(eng, res, bad, "result differs from the defining law (%s)" % self.mode)
+        self.sample(eng, res)
+
+    def replay(self, cand):
+        vars_ = cand["vars"]
+        tt.set_universe(self.N)
+        ranks = {world_str(w, self.N): vars_["R%d" % w] for w in range(CTX.W)}
+        job = {"atoms": list(CTX.atom_names), "steps": [{"op": "exec", "src": _RSRC, "ranks": ranks, "mode": self.mode,
+                                                          "fa": concretise.table_to_tree(vars_["FA"], const="literal"),
+                                                          "fb": concretise.table_to_tree(vars_["FB"], const="literal"),
+                                                          "drop": [CTX.atom_names[i] for i in self.drop]}]}
+        out = concretise.run_real(job)
+        rec = dict(harness=self.label, tables=vars_, job=job, real=out, symbolic_result=cand["res"])
+        if "steps" not in out:
+            return "error", rec
+        st = out["steps"][0]
+        res = ("exc",) + tuple(st["exc"]) if "exc" in st else tuple(["ok"] + list(st["ok"]))
+        rec["observed"] = _plain(res)
+        s = Z.Solver()
+        for v in self.vars:
+            s.add(v == vars_[str(v)])
+        s.add(Z.Not(self.good(res)))
+        rec["expected"] = "the defining law of %s" % self.mode
+        return ("confirmed" if s.check() == Z.sat else "not_reproduced"), rec
+
+
+_RSRC = '''
+from inference.preocf import PreOCF, ranks2tpo, tpo2ranks
+from inference.conditional import Conditional
+ocf = PreOCF.init_custom(dict(st["ranks"]), signature=job["atoms"])
+fa, fb = form(st["fa"]), form(st["fb"])
+m = st["mode"]
+if m == "formula_rank":
+    result = [ocf.formula_rank(fa)]
+elif m == "acceptance":
+    result = [bool(ocf.conditional_acceptance(Conditional(fb, fa, "q")))]
+elif m == "marginalize":
+    mo = ocf.marginalize(st["drop"])
+    result = [list(mo.signature), dict(mo.ranks)]
+elif m == "conditionalize":
+    result = [dict(ocf.compute_conditionalization(fa)), list(ocf.filter_worlds_by_conditionalization(fa))]
+else:
+    tpo = ranks2tpo(dict(st["ranks"]))
+    result = [[sorted(l) for l in tpo], dict(tpo2ranks(tpo, lambda k: k))]
+'''
+
+
+def _conc(x):
+    from .symint import SymInt
+    if isinstance(x, SymInt):
+        return x.concretise()
+    return x
